@@ -183,11 +183,31 @@ func (v *PacketDslVisitorImpl) VisitPacketDefinition(ctx *gen.PacketDefinitionCo
 				c.RefPacket = v.BinModel.PacketsMap[c.PacketName]
 			}
 		case *model.LengthFieldAttribute:
+			if _, ok := fieldMap[c.TragetField.Name]; !ok {
+				v.BinModel.AddSyntaxError(&model.SyntaxError{
+					Line:   f.Line,
+					Column: f.Column,
+					Msg:    "Unknown field " + c.TragetField.Name + " referenced by @lengthOf of " + f.Name,
+				})
+				continue
+			}
 			f.Attr = &model.LengthFieldAttribute{
 				LengthType:  f.GetType(),
 				TragetField: fieldMap[c.TragetField.Name],
 			}
 		case *model.MatchFieldAttribute:
+			if _, ok := fieldMap[c.MatchKeyField.Name]; !ok {
+				line, column := f.Line, f.Column
+				if len(c.MatchPairs) > 0 {
+					line, column = c.MatchPairs[0].Line, c.MatchPairs[0].Column
+				}
+				v.BinModel.AddSyntaxError(&model.SyntaxError{
+					Line:   line,
+					Column: column,
+					Msg:    "Unknown match key field " + c.MatchKeyField.Name + " for match field " + f.Name,
+				})
+				continue
+			}
 			c.MatchKeyField = fieldMap[c.MatchKeyField.Name]
 
 		}
